@@ -65,6 +65,11 @@ func modelPoint(o *observation) (chunks [][]byte, sch string, runner bool, cut, 
 			case !o.Spawned, o.StatusDown == "empty":
 				return 0 // no runner, or it had not yet touched the record when the daemon came back
 			case o.RunnerUp && !complete(o.AtRestart.State):
+				// through its first tick — or, on a slow machine, through its last: the record the
+				// restart shows carries the whole output and the runner has not recorded the end yet
+				if o.AtRestart.Listed && o.AtRestart.State == 1 && int(o.AtRestart.Size) >= total && total > first {
+					return rAll - 1
+				}
 				return 4
 			}
 			return rAll
